@@ -566,8 +566,13 @@ var runtimeErrorType types.Type // a named string type standing for runtime.Erro
 
 type RuntimeError struct{ Msg string }
 
+// mkRuntimeError: the value a run-time fault panics with — an error that also
+// implements runtime.Error (recover() returns it as a non-nil interface).
 func mkRuntimeError(msg string) Value {
-	return Iface{T: nil, V: RuntimeError{Msg: "runtime error: " + msg}}
+	if runtimeErrorType == nil {
+		return Iface{T: nil, V: RuntimeError{Msg: "runtime error: " + msg}}
+	}
+	return Iface{T: runtimeErrorType, V: "runtime error: " + msg}
 }
 
 // ---------- debug printing
